@@ -1608,6 +1608,8 @@ def validate(prop, rng, n_per_fn, res):
             and all(common.TRANSLATION_STATUS.get(f, {}).get("translated") for f in
                     ("find_dependencies", "update_recursive", "DelayFixed_with_delay", "DelayToPull_with_delay", "DelayToPush_with_delay")):
         validate_sched_heap(rng, max(6, n_per_fn // 3), res)
+    if prop == "C15" and os.path.exists(TRDRIVER):
+        validate_gridcompat(rng, max(60, 2 * n_per_fn), res)
     if prop == "C19" and os.path.exists(TRDRIVER) and all(common.TRANSLATION_STATUS.get(f, {}).get("translated") for f in
                                                          ("check_input_connected", "check_dead_links", "check_branching")):
         validate_topology_heap(rng, max(20, n_per_fn), res)
@@ -1825,6 +1827,75 @@ def validate_sched_heap(rng, n_specs, res, max_steps=10):
         except Exception:  # noqa
             pass
     res.extra["translation_validation_object_graphs"] = stats
+
+
+def validate_gridcompat(rng, n_cases, res):
+    """real structured grids (the catalogue of C15: a grid and a perturbed copy, every layout) and other kinds of grid:
+    `g.compatible_with(h)` and `g == h` of the real classes against the translated methods evaluated on the attributes
+    read from the live objects.  `np.allclose` is exact equality here: all coordinates are small integers."""
+    from finam.data.grid_base import Grid, StructuredGrid
+
+    from . import gridutil as gu
+    from .engines import c15
+
+    if not all(common.TRANSLATION_STATUS.get(f, {}).get("translated") for f in ("StructuredGrid_compatible_with", "StructuredGrid___eq__")):
+        return
+    stats = {"pairs": 0, "compatible": 0, "equal": 0, "other_kind": 0, "mismatch": 0}
+    crs_ids = []
+
+    def crs_id(c):
+        if c is None:
+            return None
+        for k, x in enumerate(crs_ids):
+            if x == c:
+                return k
+        crs_ids.append(c)
+        return len(crs_ids) - 1
+
+    def attrs(g):
+        return [int(g.dim), crs_id(g.crs), 0 if g.data_location == fm.Location.CELLS else 1, [int(n) for n in g.data_shape],
+                bool(g.axes_reversed), [[enc("Rat", Fraction(float(x))) for x in ax] for ax in g.axes]]
+
+    reqs, expect = [], []
+    for k in range(n_cases):
+        case = c15.gen_compat_case(rng)
+        try:
+            ga, gb = gu.build_grid(case["a"]), gu.build_grid(case["b"])
+        except Exception:  # noqa
+            continue
+        if rng.random() < 0.5:
+            ga, gb = gb, ga
+        others = [gb]
+        if k % 5 == 0:
+            others.append(rng.choice([fm.NoGrid(), fm.NoGrid(2), fm.UnstructuredPoints([[0.0, 0.0], [1.0, 2.0]]), "no grid", None]))
+        for other in others:
+            structured = isinstance(other, StructuredGrid)
+            oa = attrs(other) if structured else [0, None, 0, [], False, []]
+            common_args = attrs(ga)
+            tail = [isinstance(other, Grid), structured] + oa
+            try:
+                want_c = {"ok": bool(ga.compatible_with(other))}
+            except Exception as e:  # noqa
+                want_c = {"err": err_class(e)}
+            try:
+                want_e = {"ok": bool(ga == other)}
+            except Exception as e:  # noqa
+                want_e = {"err": err_class(e)}
+            reqs.append({"fn": "StructuredGrid_compatible_with", "args": common_args + [True] + tail})
+            expect.append(("compatible_with", want_c, case))
+            reqs.append({"fn": "StructuredGrid___eq__", "args": common_args + [[bool(b) for b in ga.axes_increase]] + tail
+                         + [[bool(b) for b in other.axes_increase] if structured else []]})
+            expect.append(("__eq__", want_e, case))
+            stats["pairs"] += 1
+            stats["compatible"] += 1 if want_c.get("ok") else 0
+            stats["equal"] += 1 if want_e.get("ok") else 0
+            stats["other_kind"] += 0 if structured else 1
+    if reqs:
+        for (fn, want, case), got in zip(expect, _trdriver(reqs)):
+            if got != want:
+                stats["mismatch"] += 1
+                res.diverge("translation/StructuredGrid." + fn, {"case": case, "fn": fn}, want, got)
+    res.extra["translation_validation_grids"] = stats
 
 
 def validate_topology_heap(rng, n_cases, res):
